@@ -34,7 +34,7 @@ PROPERTY = "C23"
 LEVEL = "exploration"
 RULE = (
     "programs (<=40 executed ops, `with` bodies nested <=3 deep) over one Connection: begin / begin_nested / INSERT of a fresh token / "
-    "commit|rollback|close of handle[i % n] (live or ended) / Connection.commit|rollback / close+reconnect / use of a closed Connection / "
+    "commit|rollback|close of handle[i % n] (live or ended) / out-of-order end of a non-innermost savepoint (database effect judged, then root ended) / Connection.commit|rollback / close+reconnect / use of a closed Connection / "
     "`with conn.begin()|begin_nested()|handle:` blocks with optional exception. live: file SQLite judged by an independent sqlite3 observer; "
     "rec-pg / rec-mysql: psycopg2 / pymysql dialects over a recording DBAPI judged by a log-driven transaction simulator. "
     "Non-trivial: savepoint depth >=2 reached AND a savepoint rollback is later followed by an outer commit, OR >=1 misuse op "
@@ -385,7 +385,8 @@ class _Run:
         self._note_autobegin()
         self.frames[-1][1].add(n)
 
-    def op_handle(self, i, m):
+    def op_handle(self, i, m, variant=None):
+        variant = i if variant is None else variant
         if not self.handles:
             return
         hid = i % len(self.handles)
@@ -427,7 +428,25 @@ class _Run:
         if out_of_order:
             self.cls.add("out-of-order")
             if not self.pinned:
-                self.excluded.append("commit/rollback of a savepoint that is not the innermost live one (known finding)")
+                # the registered finding is about HANDLE state (the inner handles stay active); the DATABASE effect is still
+                # judged: ending savepoint k rolls back / releases everything since k including inner savepoints.  The op is run
+                # for real, only the data is compared, and the root transaction is ended right away (which cancels every
+                # savepoint handle on both sides) before flags are compared again.
+                self.excluded.append("handle state after commit/rollback of a savepoint that is not the innermost live one (known finding; database effect still judged)")
+                self.cls.add(f"out-of-order-db-effect:{m}")
+                if m == "commit":
+                    self.m_commit(hid)
+                else:
+                    self.m_rollback(hid)
+                self.call(label + "-out-of-order", fn, "ok")
+                self.check_data(f"out-of-order {label}")
+                if not self.cms and variant % 3 == 0:
+                    self.tok += 1
+                    n = self.tok
+                    self.call("execute", lambda: self.conn.execute(self.text(f"insert into t values ({n})")), "ok")
+                    self.frames[-1][1].add(n)
+                    self.check_data(f"insert after out-of-order {label}")
+                self.op_conn("commit" if variant % 2 == 0 else "rollback")
                 return
         if m == "commit":
             self.m_commit(hid)
@@ -561,6 +580,11 @@ class _Run:
             elif k == "top":
                 if self.frames:
                     self.op_handle(self.frames[-1][0], op["m"])
+            elif k == "outer":
+                # model-directed out-of-order: a live savepoint that is NOT the innermost one
+                j = len(self.frames) - 1 - op["d"]
+                if j >= 1:
+                    self.op_handle(self.frames[j][0], op["m"], variant=op["v"])
             elif k == "conn":
                 self.op_conn(op["m"])
             elif k == "reopen":
@@ -598,6 +622,11 @@ class _Run:
             if bool(h.obj.is_active) != h.active:
                 raise Violation(f"C23/flags/is_active/{h.kind}", f"after {after}: handle {hid} ({h.kind}) is_active={h.obj.is_active} model={h.active}; trace={t}",
                                 observed=h.obj.is_active, expected=h.active)
+        self.check_data(after)
+
+    def check_data(self, after):
+        conn = self.conn
+        t = self.trace
         got = self.b.committed()
         if got != self.committed:
             raise Violation(_data_sig("committed", got, self.committed), f"after {after}: other connections see {sorted(got)} model committed={sorted(self.committed)}; trace={t}",
@@ -649,6 +678,8 @@ def _short(op):
         return f"conn.{op['m']}"
     if k == "top":
         return f"top.{op['m']}"
+    if k == "outer":
+        return f"outer{op['d']}.{op['m']}/{op['v']}"
     if k == "closed":
         return f"closed{op['i']}.{op['m']}"
     if k == "with":
@@ -709,6 +740,7 @@ def check_rec_mysql(case, ctx):
 
 # ------------------------------------------------------------------ generator
 _idx = st.integers(0, 11)
+_outer = st.builds(lambda d, m, v: {"op": "outer", "d": d, "m": m, "v": v}, st.integers(1, 2), st.sampled_from(["rollback", "rollback", "close", "commit"]), st.integers(0, 5))
 _leaf = st.one_of(
     st.just({"op": "ins"}),
     st.just({"op": "ins"}),
@@ -727,6 +759,7 @@ _leaf = st.one_of(
     st.builds(lambda i, m: {"op": "h", "i": i, "m": m}, st.integers(-3, 11), st.sampled_from(["commit", "rollback", "close"])),
     st.builds(lambda m: {"op": "conn", "m": m}, st.sampled_from(["commit", "commit", "commit", "rollback"])),
     st.builds(lambda m: {"op": "conn", "m": m}, st.sampled_from(["commit", "commit", "commit", "rollback"])),
+    _outer,
 )
 
 
@@ -760,6 +793,8 @@ def _flat(items):
 
 def _sp(depth):
     inner = [st.just({"op": "ins"}), st.just({"op": "ins"})]
+    if depth >= 2:
+        inner.append(_outer)
     if depth < 3:
         inner.append(st.deferred(lambda: _sp(depth + 1)))
         inner.append(st.deferred(lambda: _sp(depth + 1)))
